@@ -173,6 +173,11 @@ def display_chars(I, v):
         return render(I, v)
     if isinstance(v, EnumV) and v.ty.endswith("Cow"):
         return display_chars(I, v.fields[0])
+    if isinstance(v, Agg) and v.ty.split("::")[-1] == "LazyFormat":
+        # lazy_format::make_lazy_format!: Display::fmt is `(self.0)(f)`
+        buf = RString([])
+        I.callf(v.fields[0], [Ref([Formatter(buf)], 0)])
+        return buf.chars
     if isinstance(v, (Agg, EnumV, Closure)):
         buf = RString([])
         fm = Formatter(buf)
